@@ -35,7 +35,7 @@ EXHAUSTIVE = {"quick": False, "thorough": True}
 
 RULE = ("cases = api {attr.s, define, frozen} x auto_detect {unset,T,F} x written flag {unset,None,T,F} of every group "
         "(repr, eq, order, cmp, init, getstate_setstate; hash/unsafe_hash also a non-bool) x str/match_args/slots/frozen/"
-        "cache_hash/auto_exc {unset,T,F} x on_setattr {unset,None,hook,validate,NO_OP} x field validator x names bound in "
+        "cache_hash/auto_exc {unset,T,F} x front-end {class+decorator, define over unannotated attr.ib()s (auto_attribs retry), attr.make_class with class_body} x on_setattr {unset,None,hook,validate,NO_OP} x field validator x names bound in "
         "the body x bases (attrs base none/vanilla/hooked/frozen, plain class in between defining names, Exception root). "
         "thorough: one exhaustive block per group (flag(s) x every subset of the group's names in the body x api x "
         "auto_detect x slots x frozen x base-defined subsets x attrs base) + random cross-group combinations; quick: a "
@@ -47,6 +47,12 @@ RULE = ("cases = api {attr.s, define, frozen} x auto_detect {unset,T,F} x writte
         "/ the re-declared inherited field (block field_opts + a third of all cases). non-trivial = class was built and at least one watched "
         "name is the user's own object or attrs-made; distinct = distinct JSON case")
 ASSUMPTIONS = [
+    "front-end of the observed class (cfg.front, harness-only, a third of all cases): under define/frozen the fields are "
+    "UNANNOTATED attr.ib()s (define's auto_attribs guess: first attempt faults with UnannotatedAttributeError, second attempt "
+    "must run with the same flags); under attr.s the class is made by attr.make_class(name, {fields}, bases, class_body="
+    "{user methods, init hooks}, **flags) -- only where make_class's own eq/order resolution cannot change attr.s's decision "
+    "(eq and order both written True/False, or auto_detect not True, or no comparison method in the body). The model does "
+    "not read the front-end: the method table is a function of flags, body names and bases only",
     "CPython's class creation rule '__eq__ in the namespace and no __hash__ => __hash__ = None' is a 1-line model function, diff-tested here",
     "attribute resolution of __setattr__ / __attrs_own_setattr__ over the MRO is summarised by the base-shape parameters",
     "a function counts as attrs-generated if its code object comes from '<attrs generated ...' or from a file of the attr package; "
@@ -209,6 +215,28 @@ def _init_cfg(case):
         # how the attrs base came by its initialiser: generated __init__ / init=False / own __init__ (auto-detected)
         "base_init": (cfg.get("base_init") or "gen") if has_base else "gen",
     }
+
+
+_CMP_NAMES = ("__eq__", "__ne__", "__lt__", "__le__", "__gt__", "__ge__")
+
+
+def _front(case):
+    """harness-only front-end of the observed class: 'stmt' (class object + decorator, annotated fields under define/
+    frozen), 'unannot' (define/frozen over a body of UNANNOTATED attr.ib()s: define's first attempt with
+    auto_attribs=True faults with UnannotatedAttributeError and it retries with auto_attribs=False), 'make_class'
+    (attr.make_class(name, {fields}, bases, class_body={methods, hooks}, **flags) instead of attr.s on a class).
+    make_class resolves cmp/eq/order to explicit booleans before calling attr.s; it is only used where that cannot
+    change what attr.s decides: eq and order both written True/False, or no auto-detection for them (auto_detect not
+    True, or no comparison method bound in the body)."""
+    f = (case.get("cfg") or {}).get("front") or "stmt"
+    if f == "stmt":
+        return "stmt"
+    if case["api"] != "attrS":
+        return "unannot"
+    explicit = case["fCmp"] == "unset" and case["fEq"] in ("t", "f") and case["fOrder"] in ("t", "f")
+    if explicit or case["oAutoDetect"] is not True or not any(n in case["body"] for n in _CMP_NAMES):
+        return "make_class"
+    return "stmt"
 
 
 def default_case():
@@ -400,7 +428,9 @@ def build(case):
             inh = getattr(base, n, _MISSING)
             if inh is not _MISSING and callable(inh) and not any(inh is sh for sh in _SHARED_ATTRS_OBJECTS):
                 alias[n] = inh
-    if cfg.get("cell"):
+    front = _front(case)
+    annotated = case["api"] != "attrS" and front != "unannot"
+    if cfg.get("cell") and front != "make_class":
         # a real `class` statement whose methods reference `__class__`: the compiler gives each of them a closure
         # cell holding the class, which the slotted rebuild has to rewrite *in place* (same function objects)
         impl = {n: _user_obj(n, "USER") for n in case["body"]}
@@ -417,9 +447,9 @@ def build(case):
             else:
                 lines.append(f"    def {n}(self, *a, **k):\n        __class__\n        return _impl[{n!r}](self, *a, **k)")
         if fldy is not None:
-            lines.append("    y: int = _fieldy" if case["api"] != "attrS" else "    y = _fieldy")
+            lines.append("    y: int = _fieldy" if annotated else "    y = _fieldy")
         if not ic["no_own"]:
-            lines.append("    x: int = _field" if case["api"] != "attrS" else "    x = _field")
+            lines.append("    x: int = _field" if annotated else "    x = _field")
         for hn in hooks_ns:
             lines.append(f"    {hn} = _hooks[{hn!r}]")
         g = {"Base": base, "_impl": impl, "_alias": alias, "_field": fld, "_fieldy": fldy, "_hooks": hooks_ns,
@@ -436,7 +466,7 @@ def build(case):
         if not ic["no_own"]:
             ns["x"] = fld
         ns.update(hooks_ns)
-        if case["api"] != "attrS":
+        if annotated:
             ns["__annotations__"] = {f: int for f in (["y"] if fldy is not None else []) + ([] if ic["no_own"] else ["x"])}
         cls = types.new_class("C", (base,), {}, lambda d: d.update(ns))
     deco = {"attrS": attr.s, "define": attrs.define, "frozen": attrs.frozen}[case["api"]]
@@ -448,7 +478,7 @@ def build(case):
             pns = {n: _user_obj(n, "PRIOR") for n in hbody}
             pns["__module__"] = SYNTH_MOD
             pns["x"] = attr.ib(**fkw)
-            if case["api"] != "attrS":
+            if annotated:
                 pns["__annotations__"] = {"x": int}
             pbase = base if cfg.get("hist_base", "same") == "same" else root
             prior = types.new_class(f"H{i}", (pbase,), {}, lambda d, pns=pns: d.update(pns))
@@ -456,7 +486,20 @@ def build(case):
                 deco_obj(prior)
             except Exception:  # noqa: BLE001,S110  -- a rejected earlier class is part of the history too
                 pass
-        C = deco_obj(cls)
+        if front == "make_class":
+            # the same class through attr.make_class: fields as the `attrs` dict (creation order), everything else
+            # the body binds (user methods, init hooks) as class_body
+            these = {}
+            if fldy is not None:
+                these["y"] = fldy
+            if not ic["no_own"]:
+                these["x"] = fld
+            cbody = dict(user)
+            cbody.update(hooks_ns)
+            C = attr.make_class("C", these, bases=(base,), class_body=cbody, **_kwargs(case))
+            C.__module__ = SYNTH_MOD   # make_class names the calling module; the pickle probe looks C up here
+        else:
+            C = deco_obj(cls)
     except Exception as e:  # noqa: BLE001
         return None, common.exc_kind(e), user, fields
     return C, None, user, fields
@@ -788,6 +831,8 @@ def _mk_real(block, **kw):
             cfg["redecl_y" if via_redecl else "fy"] = [o for j, o in enumerate(FIELD_OPTS) if (h >> (19 + j)) % 2]
         elif pat == 7:
             cfg["redecl_y"] = [opt] if via_redecl else []
+    if "front" not in explicit:
+        cfg["front"] = "alt" if (h >> 10) % 3 == 1 else "stmt"
     if "alias" not in explicit:
         cfg["alias"] = [n for i, n in enumerate(c["body"]) if (h >> (4 + i % 20)) % 3 == 0]
     if "history" not in kw:
@@ -1012,6 +1057,7 @@ def random_case(rng):
                  "pre": rng.random() < 0.25, "post": rng.random() < 0.25,
                  "dflt": rng.choice(["none", "none", "value", "factory"]), "kw_only": rng.random() < 0.2,
                  "hist_base": rng.choice(["same", "same", "root"]),
+                 "front": rng.choice(["stmt", "stmt", "alt"]),
                  "alias": [n for n in body if rng.random() < 0.3],
                  "fx": [o for o in FIELD_OPTS if rng.random() < 0.2],
                  **rng.choice([{}, {}, {"fy": [o for o in FIELD_OPTS if rng.random() < 0.4]},
@@ -1081,6 +1127,8 @@ def shrink(case):
     for k in ("base_slots", "cell", "converter", "pre", "post", "kw_only", "no_own_field", "base_pre", "base_post"):
         if (case.get("cfg") or {}).get(k):
             yield dict(case, cfg=dict(case["cfg"], **{k: False}))
+    if ((case.get("cfg") or {}).get("front") or "stmt") != "stmt":
+        yield dict(case, cfg=dict(case["cfg"], front="stmt"))
     al = (case.get("cfg") or {}).get("alias") or []
     for i in range(len(al)):
         yield dict(case, cfg=dict(case["cfg"], alias=al[:i] + al[i + 1:]))
